@@ -17,6 +17,14 @@ var props = map[string]propCfg{
 			"non-ASCII text is only required to survive under convert-meta off, input-meta on, output-meta on (the statement's 'usual UTF-8 meta settings')",
 			"the pty and the kernel line discipline in raw mode deliver bytes unchanged",
 		}},
+	"C05": {ID: "C05", Level: "exploration",
+		Tests: []testCfg{{Name: "TestC05", Quick: 2400, Thorough: 60000, QShards: 16, TShards: 16}},
+		Assumptions: []string{
+			"every ESC byte is marked lone (all schedules cut right after it) or prefix (no schedule cuts right after it): the statement's timing carve-out, applied in every mode because local keymaps (isearch, menu-select, vi-opp) make the same distinction in emacs mode",
+			"only valid UTF-8 is typed (a terminal in UTF-8 mode sends complete characters); invalid bytes stay in C01",
+			"autocomplete / history-autosuggest off (their documented purpose is to act on redisplay); keyboard-macro commands are left to C18; vi-select-inside is only reachable through its prefix bind",
+			"two known findings are excluded by construction (schedules always cut after C-c / C-g; vi operator + character text objects / j,k replaced) and reported from dedicated regress cases",
+		}},
 	"C10": {ID: "C10", Level: "fault_enumeration",
 		Tests: []testCfg{{Name: "TestC10", Quick: 1600, Thorough: 32000, QShards: 16, TShards: 16}},
 		Fuzz:  []fuzzCfg{{Name: "FuzzC10File", Secs: 90}},
